@@ -10,6 +10,7 @@ import (
 	"math"
 	"sort"
 	"strconv"
+	"sync"
 
 	simdjson "github.com/minio/simdjson-go"
 
@@ -540,6 +541,8 @@ type reuseState struct {
 	elems []simdjson.Element
 }
 
+var rsPool = sync.Pool{New: func() interface{} { return &reuseState{} }}
+
 func (r *reuseState) at(depth int) (*simdjson.Object, *simdjson.Array, *simdjson.Element) {
 	for len(r.objs) <= depth {
 		r.objs = append(r.objs, simdjson.Object{})
@@ -627,7 +630,9 @@ func valueE(it *simdjson.Iter, typ simdjson.Type, b *budget, rs *reuseState, dep
 func readE(pj *simdjson.ParsedJson) (out []abs.Value, err error) {
 	defer guard(&err)
 	b := newBudget(pj)
-	rs := &reuseState{}
+	// the destinations live on from document to document (whatever the previous document, option set or parser object was)
+	rs := rsPool.Get().(*reuseState)
+	defer rsPool.Put(rs)
 	it := pj.Iter()
 	var tmp simdjson.Iter // the same destination for every root
 	for {
